@@ -517,17 +517,48 @@ def _cg_case(prm: dict):
     xsc = torch.view_as_complex(xs.contiguous()).reshape(n_, npx).to(torch.complex128)
     rel = float((xsc - sol).norm()) / (float(sol.norm()) + 1e-12)
     info["rel_to_dense"] = rel
-    if tuple(xs.shape) != (n_, h_, w_, 2) or not rel <= 2e-3:
+    if tuple(xs.shape) != (n_, h_, w_, 2) or not rel <= 5e-4:
         fails.append((f"cg-solution-{upd}", f"ConjGrad({upd}) differs from the dense solve of (A^H A + λ) x = A^H y + λ z: "
                                             f"relative error {rel:.3g} (λ = {lam64})"))
-    # (2) objective non-increasing over iteration counts, never worse than the start
+    # (2) objective non-increasing over iteration counts, never worse than the start; every iterate is the textbook
+    #     conjugate-gradient iterate (float64, dense) of the normal equations
     e_prev = e0 = objective(x0)
     slack = 1e-4 * (abs(e0) + 1.0)
     kmax = prm.get("kmax", min(npx, 8))
+    x0c = torch.view_as_complex(x0.contiguous()).reshape(n_, npx).to(torch.complex128)
+    ref = []
+    for b_ in range(n_):
+        A = As[b_]
+        B = A.conj().T @ A + lam64 * torch.eye(npx, dtype=torch.complex128)
+        xr = x0c[b_].clone()
+        r = A.conj().T @ yc[b_] + lam64 * zc[b_] - B @ xr
+        pdir = r.clone()
+        its = []
+        for k in range(kmax):
+            rr = torch.vdot(r, r)
+            Bp = B @ pdir
+            den = torch.vdot(pdir, Bp)
+            a = rr / den if abs(den) > 0 else 0.0
+            xr = xr + a * pdir
+            r2 = r - a * Bp
+            beta = torch.vdot(r2, r2) / rr if abs(rr) > 0 else 0.0
+            pdir = r2 + beta * pdir
+            r = r2
+            its.append(xr.clone())
+        ref.append(its)
+    worst_it = 0.0
     for k in range(1, kmax + 1):
         blk = ConjGrad(fop, bop, num_iters=k, tol=0.0, bk_update_type=CGUpdateType(upd))
         with torch.no_grad():
             xk = blk.cg(x0, y, S, m, lam, z)
+        xkc = torch.view_as_complex(xk.contiguous()).reshape(n_, npx).to(torch.complex128)
+        refk = torch.stack([ref[b_][k - 1] for b_ in range(n_)])
+        dev = float((xkc - refk).norm()) / (float(refk.norm()) + float(x0c.norm()) + 1e-12)
+        worst_it = max(worst_it, dev)
+        if k <= 5 and not dev <= 1e-2:
+            fails.append((f"cg-iterate-{upd}", f"iterate after {k} passes differs from the conjugate-gradient iterate of the "
+                                               f"normal equations: relative deviation {dev:.3g}"))
+            break
         ek = objective(xk)
         if not ek <= e_prev + slack:
             fails.append((f"cg-energy-increase-{upd}", f"objective increases from {e_prev:.6g} ({k - 1} passes) to {ek:.6g} "
@@ -537,6 +568,7 @@ def _cg_case(prm: dict):
             fails.append((f"cg-worse-than-start-{upd}", f"objective {ek:.6g} after {k} passes exceeds the start {e0:.6g}"))
             break
         e_prev = ek
+    info["worst_iterate_dev"] = worst_it
     # (3) the default block (num_iters=10, tol=1e-6) from its own start z
     dflt = ConjGrad(fop, bop, bk_update_type=CGUpdateType(upd))
     with torch.no_grad():
